@@ -40,7 +40,7 @@ ASSUMPTIONS = [
 
 SELECTABLE = ("grid1d", "grid2d", "grid3d", "oned", "periodic0", "periodic0_1d")
 KINDS = ("grid1d", "grid2d", "grid3d", "oned", "angular", "atom", "mol", "tensor", "uniform",
-         "local", "periodic0", "periodic0_1d")
+         "local", "periodic0", "periodic0_1d", "atom-rot-r0", "mol-stored", "tensor2d", "uniform2d")
 # 5.0 exceeds the extent of every test grid but not the distance of the far centre (an empty
 # sphere that is wider than the grid), 1e3 swallows everything
 RADII = (0.0, 1e-9, 0.9, 5.0, 1e3, float("inf"))
@@ -82,6 +82,18 @@ def make_grid(kind, seed):
             g1 = AtomGrid(rg, degrees=[3], center=np.array([0.0, 0.0, -0.6]))
             g2 = AtomGrid(rg, degrees=[3], center=np.array([0.0, 0.2, 0.6]))
             return MolGrid(np.array([1, 8]), [g1, g2], BeckeWeights(), store=False)
+        if kind == "atom-rot-r0":
+            # a shell at r = 0 (its points all coincide with the centre: "each once" over coincident parent points)
+            rg0 = OneDGrid(np.array([0.0, 0.5, 1.2]), np.array([0.2, 0.4, 0.5]), (0, np.inf))
+            return AtomGrid(rg0, degrees=[3, 3, 5], center=np.array([-0.2, 0.3, 0.1]), rotate=7)
+        if kind == "mol-stored":
+            g1 = AtomGrid(rg, degrees=[3], center=np.array([0.0, 0.0, -0.6]))
+            g2 = AtomGrid(rg, degrees=[3], center=np.array([0.0, 0.2, 0.6]))
+            return MolGrid(np.array([1, 8]), [g1, g2], BeckeWeights(), store=True)
+        if kind == "tensor2d":
+            return Tensor1DGrids(GaussLegendre(4), GaussLegendre(3))
+        if kind == "uniform2d":
+            return UniformGrid(np.array([-1.0, -0.5]), np.array([[0.7, 0.1], [0.0, 0.6]]), np.array([4, 3]))
         if kind == "tensor":
             return Tensor1DGrids(GaussLegendre(3), GaussLegendre(2), GaussLegendre(4))
         if kind == "uniform":
@@ -387,12 +399,88 @@ def _select_case(gname, iname, seed, res):
         res.note(f"{gname}[{iname}] shares memory with the parent (observation, not counted)")
 
 
+def run_exact_surface(ctx):
+    """Points at EXACTLY the radius (integer coordinates, distances 3, 5, 13 exact in floating point) belong to the local
+    grid ("at most the radius"), and the documented argument forms of centre and radius give the same answer."""
+    from grid.basegrid import Grid, LocalGrid, OneDGrid
+    from grid.periodicgrid import PeriodicGrid
+
+    p3 = np.array([[3.0, 4.0, 0.0], [0.0, -5.0, 0.0], [0.0, 0.0, 5.0], [1.0, 2.0, 2.0], [0.0, 3.0, 0.0], [4.0, 3.0, 0.0], [5.0, 12.0, 0.0],
+                   [0.0, 0.0, 0.0], [3.0, 4.0, 1.0], [2.0, 2.0, 1.0], [-3.0, 0.0, -4.0], [6.0, 0.0, 0.0]])
+    w3 = np.arange(1.0, 13.0)
+    p1 = np.array([-5.0, -3.0, -1.0, 0.0, 2.0, 3.0, 5.0, 13.0])
+    w1 = np.arange(1.0, 9.0)
+    with warnings.catch_warnings():
+        warnings.simplefilter("ignore")
+        grids = {
+            "Grid3d": (Grid(p3.copy(), w3.copy()), p3, w3), "Grid2d": (Grid(p3[:, :2].copy(), w3.copy()), p3[:, :2], w3),
+            "Grid1d": (Grid(p1.copy(), w1.copy()), p1, w1), "OneDGrid": (OneDGrid(p1.copy(), w1.copy(), (-20, 20)), p1, w1),
+            "LocalGrid": (LocalGrid(p3.copy(), w3.copy(), np.zeros(3), np.arange(12)), p3, w3),
+            "Periodic-no-lattice": (PeriodicGrid(p3.copy(), w3.copy()), p3, w3),
+        }
+    for gname, (g, pts, w) in grids.items():
+        dim = 1 if pts.ndim == 1 else pts.shape[1]
+        for radius in (3.0, 5.0, 13.0, 0.0, 4.999999999, 5.000000001):
+            c = np.zeros(dim)
+            d = np.abs(pts) if dim == 1 else np.sqrt(np.sum(pts**2, axis=1))
+            want = sorted(np.nonzero(d <= radius)[0].tolist())
+            forms = [("ndarray", c if dim > 1 else np.float64(0.0), radius), ("np.float64-radius", c if dim > 1 else np.float64(0.0), np.float64(radius)),
+                     ("list-centre", [0.0] * dim if dim > 1 else 0.0, radius)]
+            if float(radius).is_integer():
+                forms.append(("int-radius", c if dim > 1 else np.float64(0.0), int(radius)))
+            for fname, centre, rad in forms:
+                ctx.count(section="exact-surface")
+                case = {"route": "exact", "grid": gname, "radius": radius, "form": fname}
+                try:
+                    with warnings.catch_warnings():
+                        warnings.simplefilter("ignore")
+                        loc = g.get_localgrid(centre, rad)
+                except Exception as exc:
+                    if fname in ("list-centre",):
+                        # the docstrings type the centre as ndarray (float for 1-D): refusing another form is acceptable
+                        ctx.inadm(section="exact-surface")
+                        continue
+                    ctx.violation(f"exact-surface:{fname}:raised:{type(exc).__name__}", f"{gname}.get_localgrid({centre!r}, {rad!r}) raised "
+                                  f"{type(exc).__name__}: {exc}", case)
+                    continue
+                got = sorted(np.asarray(loc.indices).astype(int).tolist())
+                ctx.nontrivial(("exact", gname, radius, fname), section="exact-surface")
+                if got != want:
+                    onsurf = sorted(np.nonzero(d == radius)[0].tolist())
+                    sig = "points-on-the-sphere-excluded" if sorted(set(want) - set(got)) and set(want) - set(got) <= set(onsurf) and not set(got) - set(want) else "wrong-set"
+                    ctx.violation(f"exact-surface:{sig}", f"{gname}.get_localgrid(0, {rad!r}) [{fname}] returns parent indices {got}, the points "
+                                  f"with distance <= {radius} are {want} (exactly on the sphere: {onsurf})", case)
+                elif len(got) and not (np.array_equal(np.asarray(loc.weights), w[got]) or np.array_equal(np.sort(np.asarray(loc.weights)), np.sort(w[got]))):
+                    ctx.violation("exact-surface:weights", f"{gname}: local weights are not the parent weights", case)
+
+
 def run_selection(ctx):
     res = WorkerResult(section="selection")
     names = list(_sel_grids(ctx.seed))
     for gname in names:
         for iname, _ in INDEXES + EMPTY_INDEXES:
             _select_case(gname, iname, ctx.seed, res)
+    # grid types that do not support selection: a clean refusal, or else exactly the selected points and weights
+    for kind in KINDS:
+        if kind in SELECTABLE or kind.startswith("mol"):
+            continue          # (MolGrid[i] is the i-th atomic grid, not a selection of points: property C07)
+        g = make_grid(kind, ctx.seed)
+        p0, w0 = np.array(g.points), np.array(g.weights)
+        for iname, index in (("int", 1), ("slice", slice(1, 4)), ("array", np.array([2, 0]))):
+            res.count()
+            try:
+                with warnings.catch_warnings():
+                    warnings.simplefilter("ignore")
+                    sub = g[index]
+            except Exception:
+                res.inadm()
+                continue
+            res.nontrivial()
+            ep, ew = np.atleast_1d(w0[index]), None
+            if not (np.array_equal(np.asarray(sub.weights), np.atleast_1d(w0[index]))
+                    and np.array_equal(np.asarray(sub.points).reshape(len(ep), -1), np.asarray(p0[index]).reshape(len(ep), -1))):
+                res.violation(f"select:{kind}:{iname}:wrong-content", f"{kind}[{iname}] is accepted but does not hold exactly the selected "
+                              f"points and weights", {"route": "select-unsupported", "kind": kind, "index": iname})
     res.sample({"route": "select", "grid": "GaussLegendre", "index": "np.int64"})
     ctx.merge(res.as_dict())
     ctx.cov["selection"] = {"grids": names, "index_kinds": [n for n, _ in INDEXES + EMPTY_INDEXES]}
@@ -408,12 +496,17 @@ def run(ctx):
         explore.explore(ctx, "vf.props.c10:World", depth, params={"kind": kind, "small": True},
                         twice_every=7, fresh_every=0, section=f"history-edit-local:{kind}")
     ctx.guarded("selection", run_selection, ctx)
+    ctx.guarded("exact-surface", run_exact_surface, ctx)
     ctx.cov["radii"] = [repr(r) for r in RADII]
     ctx.cov["depth_bound"] = depth
     ctx.exhaustive = True
 
 
 def replay(ctx, case):
+    if case.get("route") == "select-unsupported":
+        return run_selection(ctx)
+    if case.get("route") == "exact":
+        return run_exact_surface(ctx)
     if case.get("route") == "select":
         res = WorkerResult(section="selection")
         _select_case(case["grid"], case["index"], ctx.seed, res)
